@@ -922,7 +922,7 @@ fn raw_names(sc: &Scenario, b: u8) -> Scenario {
 // workload
 // ---------------------------------------------------------------------------------------------
 
-const STEMS: &[&str] = &["prog", "a.b", "noext", "my prog", "прог", "UPPER", "x-1_y", "t.asm.v2"];
+const STEMS: &[&str] = &["prog", "a.b", "noext", "my prog", "прог", "UPPER", "x-1_y", "t.asm.v2", "settings.eep", "fw.hex", " lead", "trail "];
 const EXTS: &[&str] = &[".asm", ".asm", ".asm", ".s", ".ASM", ""];
 const PARTS: &[&str] = &["m48def.inc", "tn13def.inc", "m8def.inc", "m328Pdef.inc", "tn2313def.inc"];
 
@@ -967,6 +967,8 @@ pub fn scenario_shape(tier: &str, base_seed: u64, g: u64) -> Scenario {
     let stem = stem.as_str();
     let ext = EXTS[r.usize(EXTS.len())];
     let ext = if stem == "noext" { "" } else { ext };
+    // (a source called `fw.hex` would be its own default output)
+    let ext = if ext.is_empty() && stem.ends_with(".hex") { ".asm" } else { ext };
     let fname = format!("{}{}", stem, ext);
     let (srcdir, cwd, form) = match r.below(5) {
         0 => ("".to_string(), "".to_string(), "bare"),
@@ -1280,6 +1282,14 @@ fn out_choice(r: &mut Rng, name: &str, sc: &mut Scenario) -> String {
             sc.rules.push(RuleSpec::errno("write", &format!("$R/{}", dev), -1, "ENOSPC", "full-device"));
             format!("$R/{}", dev)
         }
+        // a name that begins or ends with a blank is a name
+        6 if r.chance(1, 2) => {
+            if r.chance(1, 2) {
+                format!("{} ", name)
+            } else {
+                format!("./ {}", name)
+            }
+        }
         6 => format!("./{}", name),
         // a spelling that can only name a directory: the output cannot be written
         _ => format!("{}{}", name, if r.chance(1, 2) { "/" } else { "/." }),
@@ -1342,6 +1352,9 @@ pub fn faults_for_event(trace: &[Event], i: usize) -> Vec<Vec<RuleSpec>> {
             }
         }
         Call::Fsync => v.push(vec![RuleSpec::errno("fsync", t, nth, "EIO", "fsync-fail")]),
+        // an advisory lock somebody else holds (EAGAIN = EWOULDBLOCK) - only a tree that takes
+        // locks ever gets here
+        Call::Flock => v.push(vec![RuleSpec::errno("flock", t, nth, "EAGAIN", "lock-busy")]),
         Call::Rename => v.push(vec![RuleSpec::errno("rename", t, nth, "EACCES", "rename-fail")]),
         Call::Ftruncate => v.push(vec![RuleSpec::errno("ftruncate", t, nth, "EIO", "ftruncate-fail")]),
         _ => {}
@@ -1353,7 +1366,7 @@ fn faultable_events(trace: &[Event]) -> Vec<usize> {
     trace
         .iter()
         .enumerate()
-        .filter(|(_, e)| matches!(e.call, Call::Stat | Call::Open | Call::Read | Call::Write | Call::Close | Call::Fsync | Call::Rename | Call::Ftruncate) && !(e.call == Call::Stat && e.ret != 0))
+        .filter(|(_, e)| matches!(e.call, Call::Stat | Call::Open | Call::Read | Call::Write | Call::Close | Call::Fsync | Call::Flock | Call::Rename | Call::Ftruncate) && !(e.call == Call::Stat && e.ret != 0))
         .map(|(i, _)| i)
         .collect()
 }
